@@ -188,8 +188,14 @@ def expected : List (String × List Entry) := [
     ⟨"range:audience", .total "bounded loop"⟩]),
   ("auth/api/iam/openid4vp.go:Wrapper.getClientMetadataFromRequest", [
     ⟨"nilcheck:metadata == nil", .sampled "iam.handleAuthorizeRequestFromVerifier"⟩]),
-  ("auth/api/iam/openid4vp.go:Wrapper.getPresentationDefinitionFromRequest", [
-    ⟨"nilcheck:presentationDefinition == nil", .sampled "iam.handleAuthorizeRequestFromVerifier"⟩]),
+  ("auth/api/iam/openid4vp.go:Wrapper.getPresentationDefinitionFromRequest", []),
+  ("auth/client/iam/client.go:HTTPClient.PresentationDefinition", [
+    ⟨"assertok:err.(oauth.OAuth2Error)", .sampled "iamclient.PresentationDefinition"⟩]),
+  ("auth/client/iam/client.go:checkNoNullEntries", [
+    ⟨"range:definition.InputDescriptors", .sampled "iamclient.PresentationDefinition"⟩,
+    ⟨"nilcheck:descriptor == nil", .sampled "iamclient.PresentationDefinition"⟩,
+    ⟨"range:requirements", .sampled "iamclient.PresentationDefinition"⟩,
+    ⟨"nilcheck:requirement == nil", .sampled "iamclient.PresentationDefinition"⟩]),
   ("vcr/revocation/statuslist2021_verifier.go:StatusList2021.Verify", [
     ⟨"nilcheck:credentialToVerify.CredentialStatus == nil", .total "no status, nothing to verify"⟩,
     ⟨"range:statuses", .total "bounded loop (model: verifyEntries)"⟩]),
